@@ -541,6 +541,23 @@ theorem exBack_stable : StableOn (exCfg .pydantic) exOracles exBackNames (postL 
 
 example := nested_text_final_names exBack_WF exBack_text exBack_prepared exBack_stable
 
+-- every model of `exBack` is used by at most one class: `refs_resolve_nested_single_use` applies
+theorem exBack_single : ∀ i, ∃ q, ∀ p ∈ exBack.ptrs, p.target = i → p.parent = none ∨ p.parent = some q := by
+  intro i
+  by_cases h : i = "1A"
+  · subst h
+    refine ⟨"1B", fun p hp ht => ?_⟩
+    simp only [exBack, List.mem_cons, List.mem_nil_iff, or_false] at hp
+    rcases hp with rfl | rfl | rfl <;> simp at ht ⊢
+  · refine ⟨"1A", fun p hp ht => ?_⟩
+    simp only [exBack, List.mem_cons, List.mem_nil_iff, or_false] at hp
+    rcases hp with rfl | rfl | rfl <;> simp_all
+
+example := refs_resolve_nested_single_use exBack_WF exBack_fhp exBack_single exBack_nested exBack_text
+  (m := { idx := "1B", fields := [("up", .opt (.ptr "1A")), ("x", .int)], name := some "B" }) (by simp [exBack])
+  (P := ["List_", "B"]) (by decide +kernel)
+  (f := ("up", .opt (.ptr "1A"))) (by simp) (a := .opt (.fwd "List_")) rfl
+
 /-! ### (d) the full statement is false: a model used by two sibling classes below a root that is itself referred to
   from a field (`1D.up : Optional[Root]`).  `extract_root` finds no parent-less model above `1D`, so `compose_models`
   takes its last branch ("Model is using by only one model"): `1D` is nested in `1B` and referenced by its bare name,
